@@ -9,7 +9,11 @@ case "$p" in
   *) git apply "$p" || exit 2 ;;
 esac
 rc=0
+# evidence/ must only ever hold records of runs on the unchanged tree: keep it
+# aside while the changed tree is being checked
+keep=$(mktemp -d /var/tmp/evidence-keep.XXXXXX); cp -a /verif/evidence/. "$keep"/
 for id in "$@"; do
   (cd /verif && ./check "$id" ${TIER:+--tier $TIER} 2>&1 | grep -E "^(C[0-9]+ tier|VIOLATION|INCONCLUSIVE|  violation)" | cut -c1-400)
 done
 git -C /repo checkout -- .
+cp -a "$keep"/. /verif/evidence/; rm -rf "$keep"
